@@ -160,6 +160,15 @@ class DColumns(Stub):
     to_list = tolist
 
 
+def _default_sort(k: dict) -> bool:
+    """Only the defaults spelled out: sort_index(axis=0, ascending=True)."""
+    return all((n == "axis" and v in (0, "index")) or (n == "ascending" and v is True) for n, v in k.items())
+
+
+def _all_rows(x) -> bool:
+    return isinstance(x, slice) and x.start is None and x.stop is None and x.step is None
+
+
 class DLoc(Stub):
     def __init__(self, frame: "DFrame"):
         self.frame = frame
@@ -167,6 +176,12 @@ class DLoc(Stub):
     def __getitem__(self, k):
         if isinstance(k, DMask):
             return self.frame._filter(k)
+        if isinstance(k, tuple) and len(k) == 2:
+            rows, cols = k
+            if isinstance(rows, DMask) and _all_rows(cols):
+                return self.frame._filter(rows)
+            if _all_rows(rows) and isinstance(cols, (list, str)):
+                return self.frame[cols]            # .loc[:, cols] selects columns like frame[cols]
         raise Unsupported(".loc[...] read with " + type(k).__name__)
 
     def __setitem__(self, k, v):
@@ -278,7 +293,7 @@ class DFrame(Stub):
         return DFrame(self.w, self.rows.add(f"keep notna[{how}:{what}]"), self.cols, self.sorted, self.joined, self)
 
     def sort_index(self, *a, inplace=False, **k):
-        if a or k:
+        if a or not _default_sort(k):
             raise Unsupported("sort_index with arguments")
         if inplace:
             self.sorted = True
@@ -444,7 +459,7 @@ class DConcat(Stub):
         self.items, self.axis, self.sorted, self.ops = items, axis, sorted_, tuple(ops)
 
     def sort_index(self, *a, **k):
-        if a or k:
+        if a or not _default_sort(k):
             raise Unsupported("sort_index with arguments")
         return DConcat(self.items, self.axis, True, self.ops)
 
@@ -538,18 +553,47 @@ class _DailyModel(AbsObj, BoundRepoMethods):
         self.params = AbsObj({"DailyModelParameters"}, submodels=subs)
         self.segment_calls: List[Tuple[str, str]] = []
 
-    def _meter_segment(self, key, frame, *a, **k):
+    def _bind(self, name, a, k, n):
+        """Positional view of a call written against the repository method's own parameter names (keywords allowed)."""
+        chk_, cls_info_ = self.__dict__["_repo_ctx"][0], self.__dict__["_repo_ctx"][1]
+        fi = chk_.res.find_method(cls_info_, name)
+        params = [p for p in (fi.params if fi is not None else []) if p not in ("self", "cls")]
+        vals = list(a)
+        for p_ in params[len(vals):]:
+            if p_ in k:
+                vals.append(k[p_])
+            else:
+                break
+        if len(vals) < n:
+            raise Unsupported(f"{name} called without its first {n} arguments")
+        return vals[:n]
+
+    def _meter_segment(self, *a, **k):
+        key, frame = self._bind("_meter_segment", a, k, 2)
         if not isinstance(frame, DFrame):
             raise Unsupported("_meter_segment on " + type(frame).__name__)
         self.segment_calls.append((key, frame.rows.key()))
         return Segment(key, frame)
 
-    def _predict_submodel(self, sub, T, *a, **k):
+    def _predict_submodel(self, *a, **k):
+        sub, T = self._bind("_predict_submodel", a, k, 2)
         if not isinstance(T, DArr):
             raise Unsupported("_predict_submodel on " + type(T).__name__)
         owner = [k_ for k_, v in self.params.submodels.items() if v is sub]
         tag = owner[0] if owner else "?"
-        return tuple(DArr(f"{nm}[{tag}]({T.desc})", T.rows) for nm in ("model", "unc", "hdd_load", "cdd_load"))
+        vals = tuple(DArr(f"{nm}[{tag}]({T.desc})", T.rows) for nm in ("model", "unc", "hdd_load", "cdd_load"))
+        # the container the repository's method hands back: a plain tuple, or a NamedTuple / record class of four fields (read by name too)
+        import ast as _ast
+        from engine.pyinterp import Record, record_class
+        chk_, cls_info_ = self.__dict__["_repo_ctx"][0], self.__dict__["_repo_ctx"][1]
+        fi = chk_.res.find_method(cls_info_, "_predict_submodel")
+        if fi is not None:
+            for r_ in [n for n in _ast.walk(fi.node) if isinstance(n, _ast.Return) and isinstance(n.value, _ast.Call) and isinstance(n.value.func, _ast.Name)]:
+                ci = fi.module.classes.get(r_.value.func.id)
+                rc = record_class(ci.node) if ci is not None else None
+                if rc is not None and len(rc.fields) == 4:
+                    return Record(rc, dict(zip(rc.fields, vals)))
+        return vals
 
 
 IN_COLS = ["season", "weekday_weekend", "temperature", "observed"]
